@@ -244,7 +244,12 @@ class CodeBuilder:
             if is_dataclass(ancestor):
                 for field in getattr(ancestor, _FIELDS).values():
                     d[field.name] = field
-        for name in self.__get_field_types(recursive=False):
+        own_fields = self.__get_field_types(recursive=False)
+        # the class's own annotations in their own order: type hints come in
+        # the order of the annotations of every base class, dataclass or not
+        for name in self.annotations:
+            if name not in own_fields:
+                continue
             field = self.namespace.get(name, MISSING)
             if isinstance(field, Field):
                 d[name] = field
@@ -534,6 +539,15 @@ class CodeBuilder:
                     if add_kwargs:
                         self.add_line("kwargs = {}")
                     in_kwargs = False
+                    # parameters of the generated __init__ in their order:
+                    # type hints follow the annotations of every base class,
+                    # dataclass fields only those of dataclass bases, so a
+                    # value is passed positionally only while both agree
+                    init_params = [
+                        name
+                        for name, field in self.dataclass_fields.items()
+                        if field.init
+                    ]
                     for field_block in field_blocks:
                         self.lines.extend(field_block.lines)
                         if field_block.in_kwargs:
@@ -543,6 +557,13 @@ class CodeBuilder:
                                 field_block.fname in kw_only_fields
                                 or in_kwargs
                             ):
+                                kw_args.append(field_block.fname)
+                            elif (
+                                len(pos_args) < len(init_params)
+                                and init_params[len(pos_args)]
+                                != field_block.fname
+                            ):
+                                in_kwargs = True
                                 kw_args.append(field_block.fname)
                             else:
                                 pos_args.append(field_block.fname)
